@@ -3,6 +3,7 @@ import Driver.C14
 import Driver.C15
 import Driver.C09
 import Driver.C19
+import Driver.C02
 
 def main (args : List String) : IO UInt32 := do
   match args with
@@ -11,4 +12,5 @@ def main (args : List String) : IO UInt32 := do
   | ["c15"] => Driver.C15.run; return 0
   | ["c09"] => Driver.C09.run; return 0
   | ["c19"] => Driver.C19.run; return 0
+  | ["c02"] => Driver.C02.run; return 0
   | _ => IO.eprintln "usage: bufmodel <property-protocol>"; return 2
